@@ -1,7 +1,7 @@
 (* C02 - A membership verification that succeeds is always a true membership.
    Statement only; the proof is `exact` a lemma of Balloon/BalloonProofs.v. *)
 From QV Require Import Base.Util Base.HashSig History.HistModel History.HistSpec Hyper.HyperModel
-  Balloon.Balloon Balloon.BalloonProofs Balloon.AutoVerify Balloon.AutoVerifyProofs Properties.Instance.
+  Balloon.Balloon Balloon.BalloonProofs Balloon.AutoVerify Balloon.AutoVerifyProofs Properties.Instance Base.ShaInst Base.Enc.
 
 Section C02.
   Variables D E V : Type.
@@ -70,6 +70,33 @@ Proof.
   eexists. repeat split; vm_compute; reflexivity.
 Qed.
 
+(* C02c - what the premise H_inj means at byte level (DESIGN 3.2).  [encG] is the byte layout of the eight formats the
+   code hashes (its Uint63 instance is what every correspondence run executes with SHA-256).  On well-formed inputs
+   (32-byte digests and values, 256-bit keys, heights < 2^16, indexes < 2^64, partial nodes above the leaves) the
+   layout is unambiguous, so two different inputs with one digest are an explicit collision of the hash function:
+   for H = SHA-256 ∘ enc the premise H_inj fails on well-formed inputs only if SHA-256 collides.  (Inputs that are NOT
+   well formed - audit-path entries of another length, which the Go verifiers do not reject - stay an assumption:
+   [Enc.unchecked_length_is_ambiguous].) *)
+Theorem C02_hash_formats_unambiguous (B : Type) (byte : N -> B) :
+  (forall x y, x < 256 -> y < 256 -> byte x = byte y -> x = y) ->
+  forall x y, hwf_prod B x -> hwf_prod B y -> encG B byte x = encG B byte y -> x = y.
+Proof. exact (enc_inj_production B byte). Qed.
+
+Theorem C02_injectivity_failure_is_a_hash_collision (B : Type) (byte : N -> B) :
+  (forall x y, x < 256 -> y < 256 -> byte x = byte y -> x = y) ->
+  forall (X : Type) (hashf : list B -> X) x y,
+  hwf_prod B x -> hwf_prod B y -> x <> y -> hashf (encG B byte x) = hashf (encG B byte y) ->
+  exists m m' : list B, m <> m' /\ hashf m = hashf m'.
+Proof. exact (H_inj_or_hash_collision B byte). Qed.
+
+Example C02_formats_premises_hold :
+  (forall x y : N, x < 256 -> y < 256 -> id x = id y -> x = y) /\
+  hwf_prod N (YNode (repeat 1 32) (repeat 2 32) (repeat true 253, 3%nat)) /\
+  hwf_prod N (HLeaf (repeat 3 32) 7) /\ hwf_prod N (HPart (repeat 3 32) 6 1).
+Proof. split; [exact byte_inj_N|]. pose proof wf_inputs_exist as W. tauto. Qed.
+
 Print Assumptions C02_digest_verify_sound.
 Print Assumptions C02_auto_verify_sound.
 Print Assumptions C02_incr_auto_verify_sound.
+Print Assumptions C02_hash_formats_unambiguous.
+Print Assumptions C02_injectivity_failure_is_a_hash_collision.
